@@ -3,6 +3,7 @@ mod c03;
 mod c04;
 mod c07;
 mod c09;
+mod c11;
 mod c12;
 mod aio;
 mod drive;
@@ -35,6 +36,7 @@ fn main() {
                 "C04" => c04::replay(case),
                 "C07" => c07::replay(case),
                 "C09" => c09::replay(case),
+                "C11" => c11::replay(case),
                 "C12" => c12::replay(case),
                 _ => {
                     eprintln!("MACHINERY: no replay for {}", prop);
@@ -68,6 +70,7 @@ fn main() {
         "C04" => c04::run(&a),
         "C07" => c07::run(&a),
         "C09" => c09::run(&a),
+        "C11" => c11::run(&a),
         "C12" => c12::run(&a),
         "selfcheck" => {
             println!("ok");
